@@ -316,6 +316,15 @@ struct Exec {
                 if (el.namespaceURI() == QLatin1String("urn:xmpp:sasl:2")) {
                     who = el.firstChildElement(QStringLiteral("authorization-identifier")).text().section(QLatin1Char('/'), 0, 0);
                 }
+                if (who.isEmpty()) {
+                    // SASL <success/> names nobody: ask the server whom it took this connection for (the victim's connection is the
+                    // one with a bound resource)
+                    for (auto *ic : server.findChildren<QXmppIncomingClient *>()) {
+                        if (!ic->jid().isEmpty() && !ic->jid().contains(QLatin1Char('/'))) {
+                            who = ic->jid();
+                        }
+                    }
+                }
                 if (authenticatedAs.isEmpty()) {
                     violate(QStringLiteral("success-without-approved-exchange"), QStringLiteral("%1: the server sent <success/> although no exchange was approved by the password checker for its user").arg(ctx));
                 } else if (!who.isEmpty() && who != authenticatedAs) {
